@@ -117,6 +117,30 @@ class Engine(object):
             self.inline |= set(getattr(mod, "INLINE", ()))
             self.lemmas.update(getattr(mod, "LEMMAS", {}))
 
+    def rebound_globals(self, modname):
+        """names a function of the module rebinds through a `global` statement"""
+        cache = self.__dict__.setdefault("_rebound", {})
+        if modname not in cache:
+            names = set()
+            try:
+                tree = self.module_ast(modname)[0]
+                for fn in ast.walk(tree):
+                    if isinstance(fn, (ast.FunctionDef, ast.AsyncFunctionDef)):
+                        decl = set()
+                        for n in ast.walk(fn):
+                            if isinstance(n, ast.Global):
+                                decl.update(n.names)
+                        for n in ast.walk(fn):
+                            if isinstance(n, (ast.Assign, ast.AugAssign, ast.AnnAssign)):
+                                for t in (n.targets if isinstance(n, ast.Assign) else [n.target]):
+                                    for x in ast.walk(t):
+                                        if isinstance(x, ast.Name) and x.id in decl:
+                                            names.add(x.id)
+            except Exception:  # noqa
+                pass
+            cache[modname] = names
+        return cache[modname]
+
     def module(self, name):
         if name not in self._mods:
             self._mods[name] = importlib.import_module(name)
